@@ -572,7 +572,6 @@ def gen_scenario(rng, want=None, forbid=()):
         # catch-all as the very last rule (after the <<EOF>> rules, which take no rule number at run time)
         sc.rules.append(Rule(pat=rx.cls(rx.ALL), conds=[], star=(nc > 1)))
         sc.c99_catchall = True
-        sc.array = False
     if sc.flavor == 'cxx':
         # %array and serialized tables do not exist for C++ scanners
         sc.array = False
